@@ -8,8 +8,78 @@ Unknown or malformed requests answer `bad-op` — never a default.
 -/
 open Wire
 
+abbrev Rec := Nat × Option String
+
 structure DState where
   cons : CState Float := CState.init
+  refl : List Rec := []
+  orient : List Rec := []
+  frames : Frames Float := Frames.init
+  ubs : UBState Float := UBState.init
+
+def parseIdx (s : String) : Option Idx :=
+  if s.startsWith "#" then (s.drop 1).toString.toInt?.map Idx.num
+  else if s.startsWith "@" then some (Idx.tag (s.drop 1).toString)
+  else none
+
+def parseTag (s : String) : Option String := if s == "~" then none else some s
+
+def showRecs (l : List Rec) : String :=
+  String.intercalate "," (l.map fun r => s!"{r.1}:{r.2.getD "~"}")
+
+def showRes : RefList.Res Rec → String
+  | .unit => "ok"
+  | .record r => s!"rec {r.1}:{r.2.getD "~"}"
+  | .nat n => s!"nat {n}"
+  | .err .index => "IndexError"
+  | .err .value => "ValueError"
+
+def parseListOp : List String → Option (RefList.Op Rec)
+  | ["add", i, t] => i.toNat?.map fun i => .add (i, parseTag t)
+  | ["edit", ix, i, t] => match parseIdx ix, i.toNat? with
+    | some ix, some i => some (.edit ix (i, parseTag t)) | _, _ => none
+  | ["get", ix] => (parseIdx ix).map .get
+  | ["del", ix] => (parseIdx ix).map .del
+  | ["swap", a, b] => match parseIdx a, parseIdx b with | some a, some b => some (.swap a b) | _, _ => none
+  | ["len"] => some .len
+  | ["tagnum", t] => some (.tagNum t)
+  | _ => none
+
+def parseFloats (ts : List String) : Option (List Float) := ts.mapM parseFloat
+
+def parseV3 : List String → Option (V3 Float)
+  | [a, b, c] => match parseFloat a, parseFloat b, parseFloat c with
+    | some a, some b, some c => some ⟨a, b, c⟩ | _, _, _ => none
+  | _ => none
+
+def showV3 (v : V3 Float) : String := s!"{showFloat v.x} {showFloat v.y} {showFloat v.z}"
+def showOptV3 : Option (V3 Float) → String | none => "none" | some v => showV3 v
+def showM3 (m : M3 Float) : String := String.intercalate " " (m.toList.map showFloat)
+
+/-- parse a sequence of optional 3×3 matrices: each is `none` or nine hex floats -/
+partial def parseOptM3s : List String → Option (List (Option (M3 Float)))
+  | [] => some []
+  | "none" :: r => (parseOptM3s r).map (none :: ·)
+  | a :: b :: c :: d :: e :: f :: g :: h :: i :: r =>
+    match (parseFloats [a, b, c, d, e, f, g, h, i]).bind M3.ofList, parseOptM3s r with
+    | some m, some tl => some (some m :: tl)
+    | _, _ => none
+  | _ => none
+
+def showOptM3 : Option (M3 Float) → String | none => "none" | some m => showM3 m
+def showUErr : Except UErr Unit → String | .ok _ => "ok" | .error .dce => "dce" | .error .typeErr => "typeErr"
+def showUBS (s : UBState Float) : String := s!"{showOptM3 s.B} | {showOptM3 s.U} | {showOptM3 s.UB}"
+
+def parseUOp : List String → Option (UOp Float)
+  | "setLattice" :: r => match parseOptM3s r with | some [m] => some (.setLattice m) | _ => none
+  | "setU" :: r => match parseOptM3s r with | some [m] => some (.setU m) | _ => none
+  | "setUb" :: r => match parseOptM3s r with | some [m] => some (.setUb m) | _ => none
+  | "setMiscut" :: add :: r => match parseOptM3s r with
+    | some [some m] => some (.setMiscut m (add == "add")) | _ => none
+  | "calcUb" :: r => match parseOptM3s r with | some [m] => some (.calcUb m) | _ => none
+  | "refineUb" :: r => match parseOptM3s r with | some [a, b] => some (.refineUb a b) | _ => none
+  | "fitUb" :: r => match parseOptM3s r with | some [a, b] => some (.fitUb a b) | _ => none
+  | _ => none
 
 def parseArg : List String → Option (Arg Float × List String)
   | "none" :: r => some (.none, r)
@@ -77,6 +147,44 @@ def step (st : DState) (line : String) : DState × String :=
       let t := st.cons.activeNames
       (st, s!"full {implemented t} {routeStr (dispatch t)}")
     else (st, "notfull")
+  | "rl.refl" :: rest =>
+    if rest == ["reset"] then ({ st with refl := [] }, "ok | ") else
+    match parseListOp rest with
+    | some op => let (l, r) := RefList.step (fun (x : Rec) => x.2) st.refl op
+                 ({ st with refl := l }, showRes r ++ " | " ++ showRecs l)
+    | none => (st, "bad-op")
+  | "rl.orient" :: rest =>
+    if rest == ["reset"] then ({ st with orient := [] }, "ok | ") else
+    match parseListOp rest with
+    | some op => let (l, r) := RefList.step (fun (x : Rec) => x.2) st.orient op
+                 ({ st with orient := l }, showRes r ++ " | " ++ showRecs l)
+    | none => (st, "bad-op")
+  | ["ub.reset"] => ({ st with ubs := UBState.init }, "ok | " ++ showUBS UBState.init)
+  | "ub" :: rest =>
+    match parseUOp rest with
+    | some op => let (s', r) := st.ubs.step op
+                 ({ st with ubs := s' }, showUErr r ++ " | " ++ showUBS s')
+    | none => (st, "bad-op")
+  | ["fr.reset"] => ({ st with frames := Frames.init }, "ok")
+  | "fr.set" :: which :: rest =>
+    match parseV3 rest with
+    | some v =>
+      let f := st.frames
+      match which with
+      | "n_hkl" => ({ st with frames := f.set_n_hkl v }, "ok")
+      | "n_phi" => ({ st with frames := f.set_n_phi v }, "ok")
+      | "surf_nhkl" => ({ st with frames := f.set_surf_nhkl v }, "ok")
+      | "surf_nphi" => ({ st with frames := f.set_surf_nphi v }, "ok")
+      | _ => (st, "bad-op")
+    | none => (st, "bad-op")
+  | ["fr.ub", "none"] => ({ st with frames := st.frames.set_UB none }, "ok")
+  | "fr.ub" :: rest =>
+    match (parseFloats rest).bind M3.ofList with
+    | some m => ({ st with frames := st.frames.set_UB (some m) }, "ok")
+    | none => (st, "bad-op")
+  | ["fr.get"] =>
+    let f := st.frames
+    (st, String.intercalate " | " [showOptV3 f.n_hkl, showOptV3 f.n_phi, showOptV3 f.surf_nhkl, showOptV3 f.surf_nphi])
   | ["modes.all"] =>
     let lines := triples.map fun t =>
       String.intercalate "," (t.map Name.toString) ++ s!" {accepted t} {implemented t} {routeStr (dispatch t)} {documented t}"
